@@ -635,3 +635,12 @@ def p15(ctx):
 
 
 RULES.append(p15)
+
+
+@rule("P16", doc="slot-map completions are injective (C03.H10): a re-inserted e-node whose redundant slots share one placeholder is later stored under a more special shape, and congruences through the general node are missed")
+def p16_h10(ctx):
+    from . import c03
+    c03.h10(ctx)
+
+
+RULES.append(p16_h10)
